@@ -110,6 +110,16 @@ pub fn default_solutions(r: &mut Rng) -> (Vec<Solution>, usize) {
             state_mutations: vec![],
         });
     }
+    // several solutions may solve the same predicate with different (or the same) data
+    for i in 1..n {
+        if r.chance(0.3) {
+            let j = r.below(i);
+            sols[i].predicate_to_solve = sols[j].predicate_to_solve.clone();
+            if r.chance(0.2) {
+                sols[i].predicate_data = sols[j].predicate_data.clone();
+            }
+        }
+    }
     let ix = r.below(n);
     (sols, ix)
 }
